@@ -24,6 +24,14 @@ def _on_timer(signum, frame):
     raise _CpuTimeout()
 
 
+def _utime() -> float:
+    """user CPU seconds of this process (what ITIMER_VIRTUAL counts); system time is excluded: on a loaded machine
+    page faults and allocation make it erratic"""
+    import resource
+
+    return resource.getrusage(resource.RUSAGE_SELF).ru_utime
+
+
 def _depth() -> int:
     f = sys._getframe(1)
     n = 0
@@ -80,7 +88,7 @@ def job_render(job):
     import warnings
 
     warnings.simplefilter("ignore")
-    t0 = time.process_time()
+    t0 = _utime()
     out = "ok"
     liquid = None
     try:
@@ -105,7 +113,7 @@ def job_render(job):
         "n": len(events),
         "max_frames": (st["max"] - st["base"]) if st["base"] is not None else 0,
         "abs_base": st["base"],
-        "cpu_s": round(time.process_time() - t0, 4),
+        "cpu_s": round(_utime() - t0, 4),
     }
 
 
@@ -214,7 +222,7 @@ def job_parse(job):
     if job.get("repeat"):
         src = src * int(job["repeat"])
     res = {"len": len(src)}
-    t0 = time.process_time()
+    t0 = _utime()
     if not job.get("model"):
         out, liquid = "ok", None
         try:
@@ -224,14 +232,14 @@ def job_parse(job):
         except BaseException as e:  # noqa: BLE001
             out = _classify(e)
             liquid = _is_liquid(e) and out != "RecursionError"
-        res.update({"out": out, "liquid": liquid, "cpu_s": round(time.process_time() - t0, 4)})
+        res.update({"out": out, "liquid": liquid, "cpu_s": round(_utime() - t0, 4)})
         return res
     try:
         tokens = list(env.tokenizer()(src))
     except _CpuTimeout:
         raise
     except BaseException as e:  # noqa: BLE001
-        res.update({"out": "lexer:" + _classify(e), "liquid": _is_liquid(e), "tokens": None, "cpu_s": round(time.process_time() - t0, 4)})
+        res.update({"out": "lexer:" + _classify(e), "liquid": _is_liquid(e), "tokens": None, "cpu_s": round(_utime() - t0, 4)})
         return res
     mtoks = _model_tokens(env, tokens)
     stream = TokenStream(iter(tokens))
@@ -252,7 +260,7 @@ def job_parse(job):
             "ntokens": len(tokens),
             "pos": min(stream.pos, len(tokens)),
             "skeleton": skel,
-            "cpu_s": round(time.process_time() - t0, 4),
+            "cpu_s": round(_utime() - t0, 4),
         }
     )
     return res
